@@ -254,16 +254,8 @@ func Run(cs Case, c *vrt.Ctx) {
 		for k := 1; k < len(steps); k++ {
 			root := freshRoot(cs)
 			prefix := append([]any{"asm"}, canon.Copy(steps[:k]).([]any)...)
-			hasDeep := false
-			walk(prefix, func(name string, args []any) {
-				switch name {
-				case "string", "equal", "eq", "==", "neq", "!=", "include", "inspect":
-					hasDeep = true
-				}
-			})
-			if hasDeep {
-				break // the prefix itself applies a deep function: covered by the earlier prefixes
-			}
+			// a deep function in this prefix runs on a root that the previous round found
+			// acyclic, so the prefix is safe to execute
 			if o := execute(prefix, root); o.panic != "" {
 				break
 			}
